@@ -54,7 +54,7 @@ CHECKS = {
    text="FSE.tla is RFC 8878 4.1. Decoder: FSECases.tla enumerates normalised distributions (less-than-one entries, zero runs), proves ReadDesc/DescBytes inversion and state partition on each and writes description + specified table; the real build_decoder must produce exactly that table. Encoder: normalisation under production parameters, every encoder state, the written description and short 1-/2-state streams are dumped as rows and judged by FSERows.Ok; predefined tables of both sides equal Table(6|6|5, RFC distribution). What the compressor really writes: ParseClasses.tla (HistRows) models the accuracy-log choice of the table builder and enumerates code histograms reaching every regime incl. the clamp of each field; a valid parse with exactly that histogram is compressed through the public Matcher trait, the frame must decode with both decoders, and the table descriptions found in the block are read by TLC with ReadDesc (limits 9/8/9, normalised, every used code encodable). Decoder cases also run on long-lived table objects (reset + rebuild, reinit_from) and against reader limits (accuracy log, symbol count: accepted exactly within them).",
    note="decoder accuracy log 5 (6 in thorough) over a value menu; encoder tables up to log 9; streams of 4..9 symbols", technique=TECH),
  "C13": dict(level=MC, design="5/C13",
-   text="Huffman.tla is RFC 8878 4.2. Decoder: HufCases.tla enumerates all explicit weight vectors up to a bound, classifies them and writes description, literals using every symbol and the bit stream; the real decoder must decode valid ones to exactly those literals and refuse incomplete ones. Encoder: for alphabet sizes 2..256 x rank orders x placements of unused symbols the code lengths, code values, the written description (direct / FSE compressed < 128 bytes) and 1-/4-stream encodings are judged by HufRows.Ok; boundary-length literals round-trip through both real decoders.",
+   text="Huffman.tla is RFC 8878 4.2. Decoder: HufCases.tla enumerates all explicit weight vectors up to a bound, classifies them and writes description, literals using every symbol and the bit stream; the real decoder must decode valid ones to exactly those literals and refuse incomplete ones. Encoder: for alphabet sizes 2..256 x rank orders x placements of unused symbols the code lengths, code values, the written description (direct / FSE compressed < 128 bytes) and 1-/4-stream encodings are judged by HufRows.Ok; boundary-length literals round-trip through both real decoders. Chains of three literals sections threaded the way compress_block threads them (6^3 class triples: skewed, nearly incompressible with raw fallback, reshuffles of the same ranking): a table is remembered exactly when its description was written, and the three-block frame decodes to the three literal strings in ruzstd and libzstd.",
    note="decoder vectors up to 4 (5) entries over weights 0..4; complete-but-not-minimal descriptions unconstrained", technique=TECH),
  "C14": dict(level=MC, design="5/C14",
    text="ZstdFormat.tla holds the RFC tables and header layouts (FormatTheorems: contiguous code ranges, count codec inversion); the implementation's function tables of both sides are dumped through pass-through hooks (every literal/match length, offsets at all code boundaries and random 32-bit values, repeat-offset function, every sequence count through writer and parser, all literals-header patterns, block headers incl. all 2^24 as per-class summaries, every frame descriptor x window byte, the compressor's header writers) and TLC judges every row with FormatRows.Ok; whole frames built around one header value (raw / RLE blocks, raw / RLE / Huffman literals, literals plus a match, sequence counts) at every size-format boundary and at the 128 KiB limit are decoded through four entry points: decodable iff stored and regenerated size <= 128 KiB, content exact. Frames with a match 128 MiB back (27 + 16 + 15 extra bits in one sequence) at all eight bit alignments; sequence headers on sources of exactly 1..4 bytes.",
